@@ -95,6 +95,16 @@ def run_translators():
     for tr in sorted(glob.glob(os.path.join(VERIF, "translators", "tr_*.py"))):
         rc, out = sh(["python3", tr, REPO], cwd=VERIF, timeout=600)
         msgs.append((os.path.basename(tr), rc, out[-500:]))
+    # grammar translator: a harness binary, because it reads the .pest files with the real pest_meta
+    lock_src = os.path.join(REPO, "Cargo.lock")
+    if os.path.exists(lock_src):
+        shutil.copyfile(lock_src, os.path.join(HARNESS, "Cargo.lock"))
+    tdir = os.path.join(BUILD, "target-default")
+    rc, out = sh(["cargo", "build", "--offline", "--bin", "tr_grammar"], cwd=HARNESS,
+                 env={"CARGO_TARGET_DIR": tdir, "RUSTFLAGS": f"--cfg {GUARD}"}, timeout=1800)
+    if rc == 0:
+        rc, out = sh([os.path.join(tdir, "debug", "tr_grammar"), REPO, os.path.join(LEAN, "PestModel", "Gen")], timeout=600)
+    msgs.append(("tr_grammar", rc, out[-800:]))
     return msgs
 
 
